@@ -96,6 +96,13 @@ FIXED = {
     "reinterpret_data_to_fn": "auto z = sandbox_reinterpret_cast<Fn>(e.t_ptr);",
     "free_foreign": "e.sb.free_in_sandbox(e.t2_ptr);", "memcpy_dest_raw": "rlbox::memcpy(e.sb, e.r_ptr, e.t_ptr, 4);",
     "app_ptr_as_callback": "e.v_fn = e.ap;",
+    # function-pointer types that coincide only under the guest ABI
+    "vol_assign_callback_abi_equal_long": "e.v_fn = e.cb_l;", "vol_assign_callback_abi_equal_int": "e.v_fnl = e.cb;",
+    "vol_assign_callback_abi_equal_ptr": "e.v_fncp = e.cb_ip;", "vol_assign_callback_abi_equal_uint": "e.v_fnu = e.cb_ip;",
+    "vol_assign_tainted_fn_abi_equal_long": "e.v_fn = e.t_fnl;", "vol_assign_tainted_fn_abi_equal_ptr": "e.v_fncp = e.t_fnip;",
+    "taint_assign_tainted_fn_abi_equal": "tainted<Fn, S> z = e.t_fnl;",
+    "invoke_callback_abi_equal": "e.sb.invoke_sandbox_function(lib_fn, e.cb_l);",
+    "invoke_tainted_fn_abi_equal": "e.sb.invoke_sandbox_function(lib_fn, e.t_fnl);",
     "vol_assign_stdarray_rawptr": "e.v_arrp = e.r_stdarrp;",
     "vol64_assign_rawptr": "e.v3_ptr = e.r_ptr;", "vol64_assign_arr_rawptr": "e.v3_arrp = e.r_arrp;",
     "vol64_assign_stdarray_rawptr": "e.v3_arrp = e.r_stdarrp;", "vol64_assign_rawfn": "e.v3_fn = e.r_fn;",
@@ -104,7 +111,8 @@ FIXED = {
     "vol64_assign_foreign_ptr": "e.v3_ptr = e.t_ptr;",
     # ---- permitted / checked entries (controls)
     "taint_nullptr": "tainted<int*, S> z = nullptr;", "vol_assign_nullptr": "e.v_ptr = nullptr;",
-    "vol_assign_tainted_ptr": "e.v_ptr = e.t_ptr;", "vol_assign_callback": "e.v_fn = e.cb;", "vol_assign_tainted_fn": "e.v_fn = e.t_fn;",
+    "vol_assign_tainted_ptr": "e.v_ptr = e.t_ptr;", "vol_assign_callback": "e.v_fn = e.cb;", "vol_assign_callback_long": "e.v_fnl = e.cb_l;",
+    "vol_assign_callback_intp": "e.v_fnip = e.cb_ip;", "vol_assign_tainted_fn": "e.v_fn = e.t_fn;",
     "invoke_ok_int": "e.sb.invoke_sandbox_function(lib_int, 5);", "invoke_ok_tainted": "e.sb.invoke_sandbox_function(lib_ptr, e.t_ptr);",
     "invoke_ok_nullptr": "e.sb.invoke_sandbox_function(lib_ptr, nullptr);",
     "invoke_ok_callback": "e.sb.invoke_sandbox_function(lib_fn, e.cb);",
